@@ -57,6 +57,8 @@ def body_plan(kind):
         return [('write', 'half-of-the-new-content\n'), ('flush',), ('abort', 'SystemExit'), ('write', 'never\n')]
     if kind == 'kbint':
         return [('write', 'X' * BIG), ('abort', 'KeyboardInterrupt')]
+    if kind == 'raises':         # an ordinary error inside the block after a partial (flushed) write
+        return [('write', 'half-of-the-new-content\n'), ('flush',), ('abort', 'ValueError'), ('write', 'never\n')]
     if kind == 'closes':         # the body closes the part file itself (a nested `with f:`) and ends normally
         return [('write', 'written-then-closed-by-the-body\n'), ('close',)]
     if kind == 'samelen':        # as long as the old content, on a file system with coarse timestamps (1-2 s ticks on ext3,
@@ -121,6 +123,22 @@ def configs(tier):
             out.append(dict(c, body='closes'))
             if c['overwrite']:
                 out.append(dict(c, dest_name='n' * 251 + '.txt'))
+    # a write-protected destination (0444 / 0400: a generated file, a lock file); an error inside the block with either
+    # setting of rm_part_on_exc (keeping the part file for inspection is a documented choice; publishing it is not);
+    # the sync of the part file fails (EIO / ENOSPC from fsync): the data is not durable, nothing may be published
+    for c in base:
+        if c['file_perms'] is None and c['body'] in ('one', 'big') and c['overwrite'] and c['dest_present']:
+            for mode in (0o444, 0o400):
+                out.append(dict(c, dest_mode=mode))
+        if c['file_perms'] is None and c['body'] == 'one':
+            for rm in (True, False):
+                for b in ('raises', 'sysexit', 'kbint'):
+                    if rm and b != 'raises':
+                        continue
+                    out.append(dict(c, body=b, rm_part_on_exc=rm))
+        if c['file_perms'] is None and c['body'] in ('one', 'big', 'flush'):
+            for en in ('EIO', 'ENOSPC'):
+                out.append(dict(c, fsync_fails=en))
     # new content exactly as long as the old one, written within the same tick of a coarse file-system clock
     for c in base:
         if c['file_perms'] is None and c['body'] == 'one' and c['overwrite'] and c['dest_present']:
@@ -207,9 +225,9 @@ class Scenario:
             return {k: (v[0], v[1].encode('latin-1'), v[2]) for k, v in cfg['initial'].items()}
         st = {}
         if cfg['dest_present']:
-            st[self.name] = (OLD_MODE, OLD, 0)
+            st[self.name] = (cfg.get('dest_mode', OLD_MODE), OLD, 0)
         if cfg.get('dest_hardlinked') and cfg['dest_present']:
-            st[SNAPSHOT] = (OLD_MODE, OLD, 0)
+            st[SNAPSHOT] = (cfg.get('dest_mode', OLD_MODE), OLD, 0)
         if cfg.get('part') == 'stale':
             st[self.name + '.part'] = (0o600, b'STALE-PART-FROM-AN-EARLIER-SAVE', 1)
         elif cfg.get('part') == 'hardlink':
@@ -261,7 +279,7 @@ class Scenario:
                     elif st[0] == 'stamp':
                         stamp_like_dest(f, self.dest)
                     elif st[0] == 'abort':
-                        raise {'SystemExit': SystemExit, 'KeyboardInterrupt': KeyboardInterrupt}[st[1]]('leaving')
+                        raise {'SystemExit': SystemExit, 'KeyboardInterrupt': KeyboardInterrupt, 'ValueError': ValueError}[st[1]]('leaving')
                     env.decide({'name': 'checkpoint', 'key': ('body', i)})
             env.decide({'name': 'checkpoint', 'key': ('after with',)})
             return None
@@ -437,6 +455,8 @@ def save_kwargs(cfg):
         kw['buffering'] = cfg['buffering']
     if cfg.get('overwrite_part'):
         kw['overwrite_part'] = True
+    if cfg.get('rm_part_on_exc') is not None:
+        kw['rm_part_on_exc'] = cfg['rm_part_on_exc']
     return kw
 
 
@@ -612,6 +632,11 @@ def check_log_order(log, sc, bad, exc=None, _second=False):
             bad('order', 'publishing call although the body did not complete', 'no rename/link onto the destination',
                 len(idx['publish']))
         return
+    if sc.cfg.get('fsync_fails'):
+        if idx['publish']:
+            bad('order', 'publishing call although the part file could not be synced',
+                'no rename/link onto the destination', len(idx['publish']))
+        return
     if len(idx['publish']) != 1:
         bad('order', 'publishing calls', 'exactly one rename/link onto the destination', len(idx['publish']))
         return
@@ -630,6 +655,25 @@ def check_log_order(log, sc, bad, exc=None, _second=False):
 
 # ----------------------------------------------------------------------------------------------------
 
+class FsyncFailsEnv(envfaults.Env):
+    """The environment of the configurations with `fsync_fails`: every fsync/fdatasync takes its one alternative."""
+
+    def __init__(self, en):
+        super().__init__(menu=lambda ev: [('raise', en)] if ev['name'] in ('fsync', 'fdatasync') else [])
+
+    def decide(self, ev):
+        if not self.closed and ev['name'] in ('fsync', 'fdatasync'):
+            self.script = self.choices + [1]
+        return super().decide(ev)
+
+
+def make_env(cfg):
+    if cfg.get('fsync_fails'):
+        import errno
+        return FsyncFailsEnv(getattr(errno, cfg['fsync_fails']))
+    return envfaults.Env()
+
+
 def run_config(task):
     cfg, base, do_fork = task
     from mc.inputs import Tally
@@ -644,7 +688,7 @@ def run_config(task):
         t.bad('C04|%s|%s' % (kind, what), {'config': cfg, 'detail': extra}, exp, obs)
 
     snaps = {}        # point index -> snapshot before that point
-    env = envfaults.Env()
+    env = make_env(cfg)
 
     def hook(env_, phase, ev):
         pass
@@ -676,10 +720,16 @@ def run_config(task):
             bad('normal', 'destination after an abandoned save', sc.old, fdest)
     elif sc.aborts:
         # the body left through SystemExit/KeyboardInterrupt: that exception reaches the caller, nothing is published
-        if not isinstance(exc, (SystemExit, KeyboardInterrupt)):
-            bad('normal', 'exception of an aborted body', 'SystemExit/KeyboardInterrupt propagates', repr(exc))
+        if not isinstance(exc, (SystemExit, KeyboardInterrupt, ValueError)):
+            bad('normal', 'exception of an aborted body', 'the exception of the body propagates', repr(exc))
         if fdest != sc.old:
             bad('normal', 'destination after an aborted body', sc.old, fdest)
+    elif cfg.get('fsync_fails'):
+        # the part file could not be made durable: the save must fail with the destination untouched
+        if not isinstance(exc, OSError):
+            bad('normal', 'save after a failed fsync', 'OSError reaches the caller', repr(exc))
+        if fdest != sc.old:
+            bad('normal', 'destination after a failed fsync', sc.old, fdest)
     elif cfg.get('part_other_fs') or cfg.get('dest_name') or cfg['body'] == 'closes' or sc.api == 'abandon_retry':
         # a rename across file systems cannot be atomic; a 255-character name leaves no room for the part file's suffix; a
         # part file closed by the body cannot be flushed and synced any more: refusing (an exception) with the destination
@@ -747,7 +797,7 @@ def run_config(task):
             pid = os.fork()
             if pid == 0:
                 try:
-                    env2 = envfaults.Env()
+                    env2 = make_env(cfg)
                     env2.child_exit_at = i
                     sc2.run(env2)
                 finally:
@@ -956,7 +1006,8 @@ def run(ctx):
         cov['samples'].append({'config': cfgs[0], 'event_log': [list(map(str, e)) for e in results[0][1]]})
         # strace conformance
         if shutil.which('strace'):
-            sel = [i for i, c in enumerate(cfgs) if not c.get('interleaved') and c['body'] not in ('sysexit', 'kbint')] \
+            sel = [i for i, c in enumerate(cfgs) if not c.get('interleaved') and not c.get('fsync_fails')
+                   and c['body'] not in ('sysexit', 'kbint', 'raises')] \
                 if not ctx.quick() else \
                 [i for i, c in enumerate(cfgs) if c['body'] in ('mix', 'seek') and c['file_perms'] is None
                  and c.get('buffering') is None][:6] + \
